@@ -376,6 +376,7 @@ pub fn run_transport(args: &[String]) {
             }
         });
     }
+    let mut fd3_variants = (0usize, 0usize); // with_activate: listener lands on descriptor 3 / elsewhere
     for (i, case) in cases.iter().enumerate() {
         progress.store(i + 1, std::sync::atomic::Ordering::SeqCst);
         let reqs = case["reqs"].as_array().unwrap();
@@ -401,6 +402,12 @@ pub fn run_transport(args: &[String]) {
                 let conn = if lib_client {
                     Connection::with_address(&address).map_err(|e| format!("Connection::with_address({}) failed: {:?}", address, e.kind()))?
                 } else if kind == "activate" {
+                    // the listening socket of with_activate gets the lowest free descriptor: make that 3 for one half of the
+                    // cases and something else for the other half (two different code paths hand it to the child as 3)
+                    let fd3_open = unsafe { libc::fcntl(3, libc::F_GETFD) } != -1;
+                    let _occupy = if i % 2 == 1 && !fd3_open { std::fs::File::open("/dev/null").ok() } else { None };
+                    let fd3_taken = unsafe { libc::fcntl(3, libc::F_GETFD) } != -1;
+                    if fd3_taken { fd3_variants.1 += 1; } else { fd3_variants.0 += 1; }
                     let dump = dir.join(format!("dump{}", i));
                     let c = Connection::with_activate(&format!("{} actserve --varlink=$VARLINK_ADDRESS --dump={}", self_exe(), dump.display()))
                         .map_err(|e| format!("with_activate failed: {:?}", e.kind()))?;
@@ -459,5 +466,6 @@ pub fn run_transport(args: &[String]) {
     let _ = std::fs::remove_dir_all(&dir);
     let fs = fails.lock().unwrap();
     for f in fs.iter() { emit(f); }
-    emit(&json!({"summary": true, "cases": cases.len(), "executions": execs, "failures": fs.len()}));
+    emit(&json!({"summary": true, "cases": cases.len(), "executions": execs, "failures": fs.len(),
+                 "listener_on_fd3": fd3_variants.0, "listener_elsewhere": fd3_variants.1}));
 }
